@@ -61,6 +61,8 @@ PROBES = [
      "SELECT CASE WHEN '' <= x1.s1 OR x1.s1 > '' THEN 1 ELSE 0 END AS p3 FROM t1 AS x1"),
     ("probe/pushdown_projections:unused-window-projection-replaced-by-MAX(1)",
      "WITH cte1 AS (SELECT MIN(3 - x1.b1) OVER () + 0 AS p4, x1.k AS p5 FROM t1 AS x1) SELECT COUNT(2) AS m9 FROM cte1 AS c8"),
+    ("probe/unnest_subqueries:correlated-in-subquery-with-group-by",
+     "SELECT x3.a1 AS p5 FROM t1 AS x3 WHERE x3.b1 IN (SELECT x4.k FROM t1 AS x4 WHERE x4.k = x3.a1 GROUP BY x4.k, x4.s1)"),
     ("probe/eliminate_joins:cross-joined-derived-table-may-be-empty",
      "SELECT x1.a1 AS p9 FROM t1 AS x1 CROSS JOIN (SELECT MAX(a2) AS m7 FROM t2 AS x2 WHERE x2.a2 > 100 GROUP BY x2.k) AS d8"),
     ("probe/simplify:comparison-flipped-in-select-not-in-group-by",
@@ -128,7 +130,18 @@ def targeted(rng, tables):
     agg = rng.choice(["MAX", "MIN", "SUM", "COUNT"])
     jk = rng.choice(["LEFT JOIN", "LEFT JOIN", "JOIN", "RIGHT JOIN", "FULL JOIN"])
     sel = rng.choice([f"x.{a} AS p1", f"x.{a} AS p1, x.{d} + 1 AS p2", f"x.{a} AS p1, y.{'m' if rng.random() < 0.5 else 'g'} AS p2"])
-    shape = rng.randrange(8)
+    shape = rng.randrange(10)
+    if shape >= 8:
+        # IN / ANY against a grouped subquery (one or two keys, selecting one of them): semi-join semantics must
+        # not multiply outer rows
+        neg = rng.choice(["", "", "NOT "])
+        keys = rng.choice([f"y.{b}", f"y.{b}, y.{c}", f"y.{c}, y.{b}"])
+        having = rng.choice(["", "", f" HAVING COUNT(*) > {rng.choice([0, 1])}"])
+        form = rng.choice(["in", "in", "any"])
+        pred = f"x.{a} {neg}IN (SELECT y.{b} FROM {u.name} AS y GROUP BY {keys}{having})" if form == "in" else \
+               f"x.{a} = ANY (SELECT y.{b} FROM {u.name} AS y GROUP BY {keys}{having})"
+        sel = rng.choice([f"x.{a} AS p1, x.{d} AS p2", "COUNT(*) AS p1", f"x.{a} AS p1"])
+        return f"SELECT {sel} FROM {t.name} AS x WHERE {pred}"
     if shape >= 5:
         # the window guard of pushdown_predicates / merge_subqueries: every projection of the derived table is used outside
         part = rng.choice(["", f"PARTITION BY {a}", f"PARTITION BY {d}"])
